@@ -447,3 +447,18 @@ def item_list_field(ix: Index) -> str:
                     and n.args[0].id in params:
                 return n.func.value.attr
     raise AnalysisError("EFLRSet: the list the items are registered in was not found")
+
+
+def dispatch_table_name(ix: Index) -> str:
+    """Name of the module-level dict `write_struct` looks the encoder up in (`<name>.get(representation_code, ...)`)."""
+    ws = ix.get_function("write_struct")
+    first = ws.param_names[0]
+    for n in walk_local(ws.node):
+        if isinstance(n, ast.Call) and isinstance(n.func, ast.Attribute) and n.func.attr in ("get", "__getitem__") \
+                and isinstance(n.func.value, ast.Name) and n.args and isinstance(n.args[0], ast.Name) \
+                and n.args[0].id == first and n.func.value.id in ws.module.assigns:
+            return n.func.value.id
+        if isinstance(n, ast.Subscript) and isinstance(n.value, ast.Name) and isinstance(n.slice, ast.Name) \
+                and n.slice.id == first and n.value.id in ws.module.assigns:
+            return n.value.id
+    raise AnalysisError("write_struct: the dispatch table it consults was not found")
